@@ -26,6 +26,7 @@ def _forced(item: dict) -> dict:
     r = auth_sched.run_forced([tuple(x) for x in item["steps"]], {int(k): v for k, v in item["calls"].items()}, item["R"], item["keyed"])
     r["expected"] = item["expected"]
     r["hasExpected"] = item["hasExpected"]
+    r["expectedFails"] = sum(1 for x in item["steps"] if x[1] == "fetchfail")
     r["origin"] = item["origin"]
     return r
 
@@ -33,8 +34,9 @@ def _forced(item: dict) -> dict:
 def _free(item: dict) -> dict:
     from . import auth_sched
 
-    r = auth_sched.run_free(item["threads"], item["calls"], item["R_ms"], item["keys"], item["keyed"])
+    r = auth_sched.run_free(item["threads"], item["calls"], item["R_ms"], item["keys"], item["keyed"], item.get("fail_every", 0))
     r["expected"] = []
+    r["expectedFails"] = 0
     r["hasExpected"] = False
     r["origin"] = "free:%s" % item
     return r
@@ -74,6 +76,18 @@ def part_auth(ctx: Ctx, out: Outcome, rng: random.Random) -> dict:
             if s[1] == "acquire" and "norecheck" in cfg:
                 steps2.append((s[0], "reread"))
         items.append({"steps": steps2, "calls": calls, "R": 2, "keyed": keyed, "expected": [], "hasExpected": False, "origin": "attack:" + cfg})
+    # third refuted design: the lock leaked when the provider raises (ReleaseOnError = FALSE).  TLC's counterexample ends with every
+    # thread idle and the lock held; one more call by every thread (running freely after the schedule) hangs code that leaks the lock
+    for cfg, keyed in (("AuthCache_leak.cfg", True), ("AuthCache_leak1.cfg", False)):
+        res = tlc.require_ok(tlc.run_tlc("AuthCache", cfg, timeout=600), cfg)
+        if "NoLeak" not in res.violated:
+            raise tlc.TLCFailure("%s: the design that leaks the lock on a failed fetch must violate NoLeak in the model" % cfg)
+        beh = sched.parse_counterexample(res.counterexample)
+        steps, calls, _ = auth_sched.steps_of(beh)
+        if not any(x[1] == "fetchfail" for x in steps):
+            raise tlc.TLCFailure("%s: counterexample without FetchFail" % cfg)
+        calls = {t: list(calls.get(t, [])) + [1] for t in (1, 2)}
+        items.append({"steps": steps, "calls": calls, "R": 2, "keyed": keyed, "expected": [], "hasExpected": False, "origin": "attack:" + cfg})
     n_sim = 60 if ctx.quick else 600
     for cfg, keyed in (("AuthCache_sim.cfg", True), ("AuthCache_sim1.cfg", False)):
         d = ctx.path("sim_" + cfg)
@@ -90,18 +104,25 @@ def part_auth(ctx: Ctx, out: Outcome, rng: random.Random) -> dict:
     forced = [_forced(i) for i in items] if len(items) < 32 else common.pmap(_forced, items, chunk=4)
     free_items = [{"threads": th, "calls": 150 if ctx.quick else 600, "R_ms": r, "keys": k, "keyed": k > 1}
                   for th in (4, 8) for r in (3, 10) for k in (1, 3)]
+    free_items += [{"threads": 6, "calls": 150 if ctx.quick else 600, "R_ms": 3, "keys": k, "keyed": k > 1, "fail_every": 3} for k in (1, 3)]
     free = [_free(i) for i in free_items]
     runs = forced + free
     for r in runs:
         if r["hung"]:
-            raise RuntimeError("auth run hung: %s" % r["origin"])
+            # threads that never come back from get(): the refresh lock is held by nobody who will release it (NoLeak)
+            out.violations.append(Violation(
+                "C14:auth-cache:NoLeak:%s" % r["origin"].split(":")[0],
+                "calls to the real provider never returned (%s; %d provider failure(s) before): the refresh lock was left held" % (r["origin"], r.get("nfails", 0)),
+                {"kind": "auth", "origin": r["origin"], "fetches": r["fetches"][:50], "R": r["R"]},
+            ))
     # a forced simulated schedule that was not followed cannot be compared with the prediction
     for r in runs:
         if r["diverged"]:
             r["hasExpected"] = False
     obs = ctx.path("auth_obs.json")
     tlc.write_json(obs, [{"fetches": r["fetches"], "returned": r["returned"], "R": r["R"], "expected": r["expected"],
-                          "hasExpected": r["hasExpected"]} for r in runs])
+                          "hasExpected": r["hasExpected"] and not r["hung"], "nfails": r.get("nfails", 0),
+                          "expectedFails": r.get("expectedFails", 0)} for r in runs])
     j = tlc.require_ok(tlc.run_tlc("AuthCacheJudge", "AuthCacheJudge.cfg", env={"OBS_FILE": obs}, workers=1, timeout=900), "AuthCacheJudge")
     accepted = {p[1] for p in j.prints if isinstance(p, list) and p and p[0] == "ACCEPT"}
     bad = [(p[1], p[2]) for p in j.prints if isinstance(p, list) and p and p[0] == "DISAGREE"]
@@ -119,7 +140,7 @@ def part_auth(ctx: Ctx, out: Outcome, rng: random.Random) -> dict:
     if sim_div:
         out.notes.append("%d simulated auth schedule(s) diverged (e.g. %s)" % (sim_div, next(r["diverged"] for r in forced if r["diverged"] and r["origin"].startswith("simulate"))))
     cov.update(design_states=design.distinct, design_generated=design.generated, forced_schedules=len(forced),
-               forced_followed_exactly=sum(1 for r in forced if not r["diverged"]), attack_schedules=4, free_runs=len(free),
+               forced_followed_exactly=sum(1 for r in forced if not r["diverged"]), attack_schedules=6, provider_failures=sum(r.get("nfails", 0) for r in runs), free_runs=len(free),
                fetches_observed=sum(len(r["fetches"]) for r in runs), simulated_diverged=sim_div, judged=len(runs))
     cov["sample"] = {"origin": forced[-1]["origin"], "steps": items[-1]["steps"][:30], "fetches": forced[-1]["fetches"]}
     return cov
